@@ -15,6 +15,26 @@ EXPLANATION = (
 SM = 'delta::StateMachine'
 
 
+def _with_closures(F, roots, depth=0):
+    """closure bodies are treated as inlined: the calls made inside a closure that is part of a value's provenance count as roots"""
+    from .c13 import _closure_calls
+    out = list(roots)
+    for r in roots:
+        if r[0] == 'agg' and r[1][0] == 'closure':
+            out += [('call', callee_of(c2), 0, (), c2) for c2 in _closure_calls(F, r[1][1])]
+    return out
+
+
+def _cond_trace(F, fn, op):
+    """provenance of a branch condition; an `if let Some(x) = opt` whose `opt` was produced by Option combinators
+    (s.rfind(c).filter(..).map(..)) is a test of the search those combinators start from"""
+    rs = F.trace(fn, op)
+    if any(r[0] == 'call' and r[1].startswith(('std::option::Option', 'core::option::Option')) for r in rs):
+        rs = rs + [x for r in rs if r[0] == 'call' and r[1].startswith(('std::option::Option', 'core::option::Option'))
+                   for a in r[4]['args'][:1] for x in F.trace(fn, a, deep=True)]
+    return rs
+
+
 def ingest_rule(F, res, ingest_fn):
     if not ingest_fn:
         res.anchor_missing('ingest function (fn(&mut StateMachine, &[u8]))')
@@ -36,6 +56,7 @@ def ingest_rule(F, res, ingest_fn):
                     roots = [r for a in payload['args'] for r in F.trace(fn, a, deep=True)]
                 else:
                     roots = [r for a in payload['args'][1:] for r in F.trace(fn, a, deep=True)]
+                roots = _with_closures(F, roots)
                 from_input = any(r[0] == 'param' and r[1] >= 2 for r in roots) or \
                     any(r[0] == 'call' and ('from_utf8' in r[1]) for r in roots)
                 primary = from_input and not any(r[0] == 'param' and r[1] == 1 and 'raw_line' in r[2] for r in roots)
@@ -71,13 +92,13 @@ def ingest_rule(F, res, ingest_fn):
                         any(r[0] == 'param' and r[2] and r[2][-1] == 'max_line_length' for r in rs)
                     return has_cr or has_len
                 guarded = any(Ru.edge_dominates(F, fn, sb, tgt, bb)
-                              for (sb, op, arms, other) in Ru.switches(F, fn) if cr_or_len(F.trace(fn, op))
+                              for (sb, op, arms, other) in Ru.switches(F, fn) if cr_or_len(_cond_trace(F, fn, op))
                               for tgt in set([b for _, b in arms] + [other]))
                 samples.append('%s bb%d %s' % (fn.split('::')[-1], bb, 'primary-store' if primary else ('guarded' if guarded else 'UNGUARDED')))
                 # which guard? the CR branch may only splice the CR out (both halves of the line kept); in-place cuts belong to the length branch
                 def is_cr(rs):
                     return any(r[0] == 'call' and r[1].endswith(('::rfind', '::find')) for r in rs) or 'cr' in helper_kinds(rs)
-                under_cr = any(Ru.edge_dominates(F, fn, sb, tgt, bb) for (sb, op, arms, other) in Ru.switches(F, fn) if is_cr(F.trace(fn, op))
+                under_cr = any(Ru.edge_dominates(F, fn, sb, tgt, bb) for (sb, op, arms, other) in Ru.switches(F, fn) if is_cr(_cond_trace(F, fn, op))
                                for tgt in set([b for _, b in arms] + [other]))
                 under_len = any(Ru.edge_dominates(F, fn, sb, tgt, bb) for (sb, op, arms, other) in Ru.switches(F, fn)
                                 if any(r[0] == 'param' and r[2] and r[2][-1] == 'max_line_length' for r in F.trace(fn, op)) or 'len' in helper_kinds(F.trace(fn, op))
@@ -103,7 +124,13 @@ def ingest_rule(F, res, ingest_fn):
                     roots = [r for a in payload['args'] for r in F.trace(fn, a, deep=True)]
                 else:
                     roots = [r for a in payload['args'][1:] for r in F.trace(fn, a, deep=True)]
-                if any(r[0] == 'param' and r[1] == 1 and 'raw_line' in r[2] for r in roots):
+                # ... or from the very value that this function stores into raw_line (the line is prepared in a local and stored at the end)
+                raw_src = set()
+                for (bb2, chain2, kind2, payload2) in Ru.field_writes(F, fn, SM, None):
+                    if 'raw_line' in [f for a, f in chain2 if a in (SM, None)] and kind2 == 'assign' and payload2[2][0] == 'use':
+                        raw_src |= {r[1] for r in F.trace(fn, payload2[2][1], deep=True) if r[0] == 'param' and r[1] >= 2 and not r[2]}
+                if any(r[0] == 'param' and r[1] == 1 and 'raw_line' in r[2] for r in roots) or \
+                        (raw_src and any(r[0] == 'param' and r[1] in raw_src and not r[2] for r in roots)):
                     ok += 1
                     samples.append('%s bb%d line<-raw_line' % (fn.split('::')[-1], bb))
                 else:
